@@ -4,6 +4,7 @@ package vc
 
 import (
 	"fmt"
+	"go/constant"
 	"go/token"
 	"go/types"
 	"os"
@@ -480,8 +481,82 @@ func (p *Program) ExpandAutoRules(u *Universe) {
 					c.Props = append(c.Props, pr)
 				}
 			}
-			c.Ensures = append(c.Ensures, rule.Ensures...)
-			c.Invs = append(c.Invs, rule.Invs...)
+			for _, e := range rule.Ensures {
+				if autoClauseApplies(e, f) {
+					c.Ensures = append(c.Ensures, e)
+				}
+			}
+			for _, e := range rule.Invs {
+				if autoClauseApplies(e, f) {
+					c.Invs = append(c.Invs, e)
+				}
+			}
 		}
 	}
+}
+
+var globalInits map[string]string
+
+// globalInitString: the string literal a package-level []byte variable is
+// initialised with in its package initialiser (`var x = []byte("lit")`).
+func (p *Program) globalInitString(pkg, name string) (string, bool) {
+	if globalInits == nil {
+		globalInits = map[string]string{}
+		for path := range p.built {
+			pk := p.Pkgs[path]
+			if pk == nil || pk.Types == nil {
+				continue
+			}
+			sp := p.SSA.Package(pk.Types)
+			if sp == nil {
+				continue
+			}
+			init := sp.Func("init")
+			if init == nil {
+				continue
+			}
+			for _, b := range init.Blocks {
+				for _, in := range b.Instrs {
+					st, ok := in.(*ssa.Store)
+					if !ok {
+						continue
+					}
+					gl, ok := st.Addr.(*ssa.Global)
+					if !ok {
+						continue
+					}
+					cv, ok := st.Val.(*ssa.Convert)
+					if !ok {
+						continue
+					}
+					c, ok := cv.X.(*ssa.Const)
+					if !ok || c.Value == nil || c.Value.Kind() != constant.String {
+						continue
+					}
+					globalInits[gl.Pkg.Pkg.Path()+"."+gl.Name()] = constant.StringVal(c.Value)
+				}
+			}
+		}
+	}
+	v, ok := globalInits[pkg+"."+name]
+	return v, ok
+}
+
+// autoClauseApplies: a template clause naming a parameter (e.g. ns) applies
+// only to functions that have a parameter or captured variable of that name.
+func autoClauseApplies(cl *spec.Clause, f *ssa.Function) bool {
+	names := map[string]bool{}
+	for _, p := range f.Params {
+		names[p.Name()] = true
+	}
+	for _, fv := range f.FreeVars {
+		names[fv.Name()] = true
+	}
+	text := cl.Expr.String()
+	for _, need := range []string{"ns"} {
+		if strings.Contains(text, "bid("+need+")") && !names[need] {
+			return false
+		}
+	}
+	return true
 }
